@@ -234,7 +234,7 @@ class WebSession(object):
 
             auth_string = '{}:{}'.format(username, password)
             auth_string = base64.b64encode(
-                auth_string.encode('utf-8', 'replace')).decode('utf-8')
+                auth_string.encode('utf-8', 'surrogateescape')).decode('utf-8')
             request.fields['Authorization'] = 'Basic {}'.format(auth_string)
 
 
